@@ -284,6 +284,26 @@ func rulesC02(c *Ctx) {
 		}
 		wvs := g.callVertices(write)
 		c.Pin("processResult write sites", len(wvs), 1)
+		// a call is answered on every path: behind the IsCall() edge no exit is reached without the write, whatever the
+		// handler returned (an unencodable result included — D17), and what is written is a value built by NewResponse
+		callEdges := g.edgesWhere(func(a Atom) bool {
+			ce, ok := a.E.(*ast.CallExpr)
+			return ok && a.Val && pr.IsCallTo(ce, isCall)
+		})
+		c.Pin("processResult IsCall edges", len(callEdges), 1)
+		for _, ev := range callEdges {
+			okp, path := g.MustPassIncl(ev, g.Exits, g.hasCall(write))
+			c.Check(okp, "processResult:call-always-answered", pr, g.Node(ev), "behind req.IsCall() every path writes a response %s", g.PathString(path))
+		}
+		respVar := pr.VarFromCall(newResp, 0)
+		if respVar != nil {
+			c.Check(len(pr.writesToVar(pr.Body, respVar, true)) == len(pr.CallsIn(pr.Body, newResp, false)), "processResult:response-only-from-NewResponse", pr, nil, "the response variable is assigned by NewResponse and by nothing else")
+		}
+		for _, wv := range wvs {
+			wc := pr.CallsIn(g.Node(wv), write, false)
+			okr := len(wc) == 1 && len(wc[0].Args) == 2 && respVar != nil && pr.ObjOf(wc[0].Args[1]) == respVar
+			c.Check(okr, "processResult:writes-the-built-response", pr, g.Node(wv), "the message written is the value built by NewResponse(req.ID, …)")
+		}
 		for _, wv := range wvs {
 			c.Check(hasAtom(g.GuardsAt(wv), func(a Atom) bool {
 				ce, ok := a.E.(*ast.CallExpr)
